@@ -89,10 +89,13 @@ pub struct Layout {
     pub indent: bool,
     /// a DESC element inside CODING, SIGNAL and FRAME elements (only a PDU's DESC is part of the model)
     pub foreign_desc: bool,
+    /// extra namespaced attributes whose local names END in the names the loader looks up (ID, ID-REF,
+    /// BASE-DATA-TYPE), placed BEFORE the real attribute
+    pub foreign_attrs: bool,
 }
 impl Default for Layout {
     fn default() -> Self {
-        Layout { pdu_order: [0, 1, 2, 3, 4], frame_order: [0, 1, 2, 3, 4], ref_first: false, refs_open_close: false, manuf_order: [0, 1, 2, 3], noise: false, indent: true, foreign_desc: false }
+        Layout { pdu_order: [0, 1, 2, 3, 4], frame_order: [0, 1, 2, 3, 4], ref_first: false, refs_open_close: false, manuf_order: [0, 1, 2, 3], noise: false, indent: true, foreign_desc: false, foreign_attrs: false }
     }
 }
 
@@ -116,6 +119,16 @@ fn esc(s: &str) -> String {
 }
 
 pub fn render_elem(e: &Elem, l: &Layout, out: &mut String) {
+    let mut tmp = String::new();
+    render_elem_inner(e, l, &mut tmp);
+    if l.foreign_attrs {
+        // decoy attributes in front of the looked-up ones
+        tmp = tmp.replace(" ID=\"", " ext:OID=\"decoy-oid\" x:UUID=\"f81d4fae\" ID=\"").replace(" ID-REF=\"", " ext:KID-REF=\"decoy-ref\" ID-REF=\"").replace(" ho:BASE-DATA-TYPE=\"", " ext:ALT-BASE-DATA-TYPE=\"A_FLOAT64\" ho:BASE-DATA-TYPE=\"");
+    }
+    out.push_str(&tmp);
+}
+
+fn render_elem_inner(e: &Elem, l: &Layout, out: &mut String) {
     let nl = if l.indent { "\n" } else { "" };
     let ind = |n: usize| if l.indent { "    ".repeat(n) } else { String::new() };
     match e {
